@@ -1,7 +1,7 @@
 /-
   OdfModel.Pkg — model of the package layer of odf/opendocument.py (properties C03, C16).
 
-  Modelled, statement by statement (tree as of the `fix:` commits, in particular b8fd72d):
+  Modelled, statement by statement (tree as of the `fix:` commits, in particular b8fd72d, 87ffca7, 31ca861):
 
   * `OpenDocument.__zipwrite`        → `save`
         mimetype member (ZIP_STORED, ZipInfo without extra) ; `_saveXmlObjects(self, "")` ;
@@ -26,8 +26,9 @@
         `__detectmimetype` → `detectMimetype`.
 
   Abstractions: `zipfile` = "append entry (name, method, extra, content)"; member names are taken
-  verbatim (true for names without NUL; `ZipFile.write` additionally normalises the name of a
-  picture registered by file name — the generated hrefs are already normal).  The bodies of the XML
+  verbatim (true for names without NUL; `ZipFile.write` additionally runs normpath over the name of a
+  picture registered by file name — since 31ca861 the generated href is "Pictures/" + uuid + splitext
+  extension, which contains no path separator, so it is already normal).  The bodies of the XML
   parts are opaque tokens `Content.part kind objectId` (their text is C01/C02's business); the body of
   a picture registered by file name is the token `Content.file name` (whatever the file holds at save
   time).  `time` is ignored.  `str.encode('utf-8')` raises on a lone surrogate (no package is
@@ -403,6 +404,8 @@ def detectMimetype (p : Package) : Str :=
 def isPicturePath (m : Str) : Bool := m.take 9 == sPictures && m.length > 9
 def isObjectFolder (m : Str) : Bool := m.take 7 == sObjectSp && m.length < 11 && m.getLast? == some 47
 def isXmlPart (m : Str) : Bool := m == sSettings || m == sMeta || m == sContent || m == sStyles
+/-- `mentry in (u'/', u'Thumbnails/', u'mimetype', u'META-INF/manifest.xml')` -/
+def isRegenerated (m : Str) : Bool := m == sSlash || m == sThumbDir || m == sMimetype || m == sManifestPath
 
 /-- accumulated state of the dispatch loop of `load` -/
 structure LoadSt where
@@ -429,6 +432,7 @@ def loadEntry (p : Package) (keys : List Str) (s : LoadSt) (e : Str × Str) : Op
     | some b => some { s with thumb := some b }
     | none => none
   else if isXmlPart m then some s
+  else if isRegenerated m then some s        -- (fix 87ffca7) written afresh by save()
   else if isObjectFolder m then
     some { s with kids := s.kids ++ [⟨s.kids.length + 1, e.2, settingsOf p keys m, [], none, [],
                                        47 :: m.dropLast, []⟩] }
